@@ -494,9 +494,9 @@ func (run *Run) RunC08() {
 	emit := func(fd lib.Finding) { rep.Add(fd) }
 	n := run.Witness(emit)
 	rep.AddEval(int64(n), 4)
-	rounds, goroutines, calls := 40, 16, 40
+	rounds, goroutines, calls := 100, 16, 40
 	if run.Tier == "thorough" {
-		rounds, calls = 600, 60
+		rounds, calls = 1500, 60
 	}
 	for r := 0; r < rounds; r++ {
 		ev := run.StressRound(run.Seed, r, goroutines, calls, true, emit)
